@@ -275,6 +275,7 @@ def _l2k_plain(draw, tier="quick", mode=None):
     if mode in ("canonical", "near"):
         key = draw(st.sampled_from(list(KSEQ)))
         argw, ops, y = canonical_body(key, **_canon_types(draw, key))
+        canon_ops, canon_y = [list(o) for o in ops], y
         if mode == "near":
             for _ in range(draw(st.sampled_from([1, 1, 1, 2, 3]))):
                 ops, y = _mutate(draw, argw, ops, y)
@@ -294,8 +295,12 @@ def _l2k_plain(draw, tier="quick", mode=None):
         ops, y = wired
     vecs = draw(vectors_st(argw, 4))
     vseed = draw(st.integers(0, (1 << 64) - 1))
-    return dict(args=[ty(w) for w in argw], ops=[[k, r, ty(w)] for k, r, w in ops], **{"yield": y}, vecs=vecs, vseed=vseed,
-                mode=mode + (":" + key if key else ""))
+    rec = dict(args=[ty(w) for w in argw], ops=[[k, r, ty(w)] for k, r, w in ops], **{"yield": y}, vecs=vecs, vseed=vseed,
+               mode=mode + (":" + key if key else ""))
+    if mode == "near" and draw(st.integers(0, 2)) == 0:
+        # the kernel's canonical body on the same buffers sits in front of the body under test in the same module
+        rec["sib"] = dict(args=list(rec["args"]), ops=[[k, r, ty(w)] for k, r, w in canon_ops], **{"yield": canon_y})
+    return rec
 
 
 def l2k_exhaustive(tier):
